@@ -425,6 +425,7 @@ def run(chk):
         files, levels = D.template_project()
         if level:
             levels[level]["display"] = list(meta)
+            levels[level]["display_spell"] = [D.spell(rng, w) for w in meta]
         texts = D.render_project(files)
         for cfg in cfgs:
             chk.count(("product", level, meta, json.dumps(cfg, sort_keys=True)),
